@@ -181,7 +181,12 @@ func (m *Model) Run(inputs Tensors) (Tensors, error) {
 
 	outputTensors := make(Tensors)
 	for _, outputName := range m.OutputNames() {
-		outputTensors[outputName] = tensors[outputName]
+		outputTensor, ok := tensors[outputName]
+		if !ok || outputTensor == nil {
+			return nil, ErrModel("no tensor was computed for output %v", outputName)
+		}
+
+		outputTensors[outputName] = outputTensor
 	}
 
 	return outputTensors, nil
